@@ -69,7 +69,7 @@ def big_case(rng, country):
 
 
 def gen_cases(tier, rng):
-    n = 150 if tier == "quick" else 7000
+    n = 150 if tier == "quick" else 16000
     cases = []
     for k in range(n):
         country = "ie" if k % 3 == 2 else "us"
